@@ -47,8 +47,10 @@ def collect(rep, names, tier, *, act_filter=None, max_pairs=None, seed=0, fault_
                 for si, st in enumerate(states):
                     jobs.append((name, [st], acts[(si + seed) % stride::stride]))
             else:
-                for ch in common.chunks(states, 8):
-                    jobs.append((name, ch, acts))
+                # a few states per job: a job's events are all in memory at once (one job with hundreds of states x ~1500 actions grew a
+                # worker to 6 GB in the thorough tier); run_judged flushes to the judge between jobs
+                for i in range(0, len(states), 4):
+                    jobs.append((name, states[i:i + 4], acts))
         rep.mark("mc")
         scnp = os.path.join(tmp, "scn.json")
         with open(scnp, "w") as f:
